@@ -23,6 +23,10 @@ partial def nvalSexp (nv : NVal Rat) : Sexp :=
   l [a "node", a nv.name, l (nv.ports.map fun p => l [a p.1, optRatSexp p.2.2]),
      l (nv.resources.map fun r => l [a r.1, a r.2.1.name, optRatSexp r.2.2]), l (nv.children.map nvalSexp)]
 
+def aggEntryOfSexp : Sexp → Option (String × Dict Expr)
+  | .list (.atom k :: ts) => do some (k, ← ts.mapM localOfSexp)
+  | _ => none
+
 def genTables : Tables :=
   { binOps := Generated.binOpTable, unaryOps := Generated.unaryOpTable,
     builtins := Generated.builtinNames, specialParams := Generated.specialParams }
@@ -99,6 +103,14 @@ def respond (line : String) : String :=
           | none => "(err denote)")
        | .error e => Sexp.toString (errSexp e))
     | _, _ => "(bad-request denote)"
+  | some (.atom "aggregate" :: .atom remove :: c :: d :: _) =>
+    -- (aggregate <0|1> <croutine> ((res (target expr) ...) ...))
+    match CRoutine.ofSexp c, listOfSexp aggEntryOfSexp d with
+    | some c, some d =>
+      (match addAggregatedResources d (remove == "1") c with
+       | .ok c' => Sexp.toString (l [a "ok", c'.toSexp])
+       | .error e => Sexp.toString (errSexp e))
+    | _, _ => "(bad-request aggregate)"
   | some (.atom "evaluate" :: c :: asg :: _) =>
     match CRoutine.ofSexp c, listOfSexp localOfSexp asg with
     | some c, some asg =>
